@@ -28,6 +28,7 @@ import (
 type tailEnv struct {
 	dir, path     string
 	cancel        context.CancelFunc
+	drained       chan struct{} // closed when the collector has seen the lines channel close
 	wg            sync.WaitGroup
 	lines         chan *logline.LogLine
 	mu            sync.Mutex
@@ -70,7 +71,9 @@ func newTailEnv(existing bool, patterns []string, ignore string, dirOverride str
 	}
 	ctx, cancel := context.WithCancel(context.Background())
 	e.cancel = cancel
+	e.drained = make(chan struct{})
 	go func() {
+		defer close(e.drained)
 		for l := range e.lines {
 			e.mu.Lock()
 			e.got = append(e.got, l.Filename+"\x00"+l.Line)
@@ -140,6 +143,20 @@ func (w *hWaker) waitWaiting(n int, d time.Duration) bool {
 		}
 		time.Sleep(100 * time.Microsecond)
 	}
+}
+
+// stop ends tailing the way mtail does at shutdown and waits until everything sent has arrived.
+func (e *tailEnv) stop() bool {
+	e.cancel()
+	if !withTimeout(10*time.Second, func() { e.wg.Wait() }) {
+		return false
+	}
+	select {
+	case <-e.drained:
+	case <-time.After(5 * time.Second):
+		return false
+	}
+	return true
 }
 
 func (e *tailEnv) close() {
@@ -268,6 +285,11 @@ func c16Spec(ops []string) []string {
 			if !exists {
 				exists, tailing = true, true
 			}
+		case "stop":
+			// tailing stopped: the generation being tailed ends
+			if exists && tailing {
+				flush()
+			}
 		}
 	}
 	return out
@@ -326,6 +348,11 @@ func c16Run(r *runCtx, id string, f []string) {
 			}
 		case "pre":
 			// already in the file when the tailer started
+		case "stop":
+			if !env.stop() {
+				env.stalled = "the tailer did not wind down within 15 s of being stopped"
+			}
+			continue
 		}
 		after, afterPoll := 0, 0
 		if env.alive == 1 && exists {
@@ -372,6 +399,8 @@ func init() {
 			rec = func(prefix []string) {
 				if len(prefix) > 0 {
 					g.emit("fs", strings.Join(prefix, ";")+";a:"+hx("end\n"))
+					// ... and the same history ended by stopping the tailer instead
+					g.emit("fs", strings.Join(prefix, ";")+";stop")
 				}
 				if len(prefix) == L {
 					return
@@ -420,6 +449,9 @@ func init() {
 				}
 				if g.r.chance(1, 3) {
 					ops = append([]string{"pre:" + hx(g.r.pick([]string{"old1\nold2\n", "o\nfr", "x"}))}, ops...)
+				}
+				if g.r.chance(1, 2) {
+					ops = append(ops, "stop")
 				}
 				g.emit("fs", strings.Join(ops, ";"))
 			}
